@@ -11,7 +11,7 @@ from fractions import Fraction
 import numpy as np
 from . import common
 
-THEOREM_FILES = ['NumqiProps/C05.lean']
+THEOREM_FILES = ['NumqiProps/C05.lean', 'NumqiProofs/DecisionC05.lean']
 LEVEL = 'proof'
 RULE = ('correspondence ops: Gaussian-integer Hermitian matrices (random, diagonal, unit, sparse) for every dimension list in '
         '(2,2),(2,3),(3,2),(3,3),(2,4),(2,2,2),(2,3,2),(3,2,2),(2,2,2,2) through is_ppt / is_generalized_ppt / check_reduction_witness / '
@@ -531,3 +531,396 @@ def _wellformed(op):
     if t[1] == 'ptb' and len(dim) != 2:
         return False
     return True
+
+
+# ---------------------------------------------------------------------------------------------------------------
+# probe: direct evaluation of the property on the real code (independent of the Lean model)
+# ---------------------------------------------------------------------------------------------------------------
+PROBE_DIMS = [(2, 2), (2, 3), (3, 2), (3, 3), (2, 4), (2, 2, 2), (2, 3, 2)]
+TOL_MEASURE = 1e-7          # closed-form measures of a separable state (exactly 0) must be finite and below this
+TOL_CONCURRENCE = 5e-7      # concurrence is a difference of square roots of eigenvalues known to ~1e-16: error ~1e-8
+
+
+def unit(v):
+    return v / np.linalg.norm(v)
+
+
+def rand_vec(rng, d, kind):
+    if kind == 'basis':
+        v = np.zeros(d, dtype=np.complex128); v[rng.integers(0, d)] = 1
+        return v
+    if kind == 'real':
+        return unit(rng.normal(size=d)).astype(np.complex128)
+    return unit(rng.normal(size=d) + 1j * rng.normal(size=d))
+
+
+def product_state(vecs):
+    v = vecs[0]
+    for w in vecs[1:]:
+        v = np.kron(v, w)
+    return v
+
+
+def make_separable(rng, dim, nterm, kind):
+    """returns rho and a JSON-able description sufficient to rebuild it"""
+    n = len(dim)
+    if kind == 'repeated':
+        base = [[rand_vec(rng, d, 'complex') for d in dim] for _ in range(max(1, nterm // 2))]
+        vec = [base[i % len(base)] for i in range(nterm)]
+    elif kind == 'parallel':
+        v0 = [rand_vec(rng, d, 'complex') for d in dim]
+        eps = 10.0 ** rng.integers(-9, -2)
+        vec = [[unit(v + eps * (rng.normal(size=len(v)) + 1j * rng.normal(size=len(v)))) for v in v0] for _ in range(nterm)]
+    else:
+        vec = [[rand_vec(rng, d, kind) for d in dim] for _ in range(nterm)]
+    p = rng.dirichlet(np.ones(nterm)) if nterm > 1 else np.ones(1)
+    if kind == 'basis' and rng.random() < 0.5:
+        p = np.ones(nterm) / nterm
+    rho = np.zeros((int(np.prod(dim)),) * 2, dtype=np.complex128)
+    for pi, vs in zip(p, vec):
+        psi = product_state(vs)
+        rho = rho + pi * np.outer(psi, psi.conj())
+    desc = dict(dim=list(dim), kind=kind, p=[float(x) for x in p],
+                vectors=[[[[float(z.real), float(z.imag)] for z in v] for v in vs] for vs in vec])
+    return rho, desc
+
+
+def rebuild(desc):
+    dim = tuple(desc['dim'])
+    if 'rho' in desc:
+        return np.array([[complex(*z) for z in row] for row in desc['rho']]), dim
+    rho = np.zeros((int(np.prod(dim)),) * 2, dtype=np.complex128)
+    for pi, vs in zip(desc['p'], desc['vectors']):
+        psi = product_state([np.array([complex(*z) for z in v]) for v in vs])
+        rho = rho + pi * np.outer(psi, psi.conj())
+    return rho, dim
+
+
+def rho_desc(rho, dim, kind):
+    return dict(dim=list(dim), kind=kind, rho=[[[float(z.real), float(z.imag)] for z in row] for row in np.asarray(rho, dtype=np.complex128)])
+
+
+def family_states():
+    """analytically separable members of the named families (incl. the boundary of the separable range)"""
+    import numqi
+    out = []
+    for d in (2, 3):
+        for a in (-1.0, -0.5, 0.0, 0.5 / d, 1.0 / d):
+            out.append((numqi.state.Werner(d, a), (d, d), f'Werner(d={d},alpha={a})'))
+        for a in (-1.0 / (d * d - 1), 0.0, 0.5 / (d + 1), 1.0 / (d + 1)):
+            out.append((numqi.state.Isotropic(d, a), (d, d), f'Isotropic(d={d},alpha={a})'))
+        out.append((np.eye(d * d) / (d * d), (d, d), f'maximally-mixed({d},{d})'))
+    for b in (0.0, 1.0):
+        out.append((numqi.state.get_bes2x4_Horodecki1997(b), (2, 4), f'Horodecki2x4(b={b})'))
+    out.append((numqi.state.get_bes3x3_Horodecki1997(0.0), (3, 3), 'Horodecki3x3(a=0)'))
+    out.append((np.eye(8) / 8, (2, 2, 2), 'maximally-mixed(2,2,2)'))
+    return out
+
+
+def oracle_pt(rho, dim, i):
+    """partial transpose on party i from the definition (explicit loop over multi-indices; independent of the reshape in is_ppt)"""
+    N = int(np.prod(dim))
+    idx = list(itertools.product(*[range(d) for d in dim]))
+    pos = {x: k for k, x in enumerate(idx)}
+    out = np.zeros((N, N), dtype=rho.dtype)
+    for x in idx:
+        for y in idx:
+            x2 = list(x); y2 = list(y)
+            x2[i], y2[i] = y[i], x[i]
+            out[pos[tuple(x2)], pos[tuple(y2)]] = rho[pos[x], pos[y]]
+    return out
+
+
+def oracle_reduction(rho, dim, i):
+    N = int(np.prod(dim))
+    idx = list(itertools.product(*[range(d) for d in dim]))
+    pos = {x: k for k, x in enumerate(idx)}
+    out = -np.array(rho, dtype=np.complex128)
+    for x in idx:
+        for y in idx:
+            if all(x[j] == y[j] for j in range(len(dim)) if j != i):
+                # (1 ⊗ rho_i ⊗ 1)[x,y] = rho_i[x_i,y_i] = sum over the other parties z of rho[(z,x_i),(z,y_i)]
+                s = 0
+                for z in idx:
+                    if z[i] == x[i]:
+                        z2 = list(z); z2[i] = y[i]
+                        s += rho[pos[z], pos[tuple(z2)]]
+                out[pos[x], pos[y]] += s
+    return out
+
+
+def oracle_gppt(rho, dim, d0, d1):
+    n = len(dim)
+    shape = list(dim) + list(dim)
+    idx = list(itertools.product(*[range(d) for d in dim]))
+    pos = {x: k for k, x in enumerate(idx)}
+    def enc(axes, z):
+        k = 0
+        for a in axes:
+            k = k * shape[a] + z[a]
+        return k
+    rows = int(np.prod([shape[a] for a in d0])) if len(d0) else 1
+    cols = int(np.prod([shape[a] for a in d1])) if len(d1) else 1
+    out = np.zeros((rows, cols), dtype=rho.dtype)
+    for x in idx:
+        for y in idx:
+            z = list(x) + list(y)
+            out[enc(d0, z), enc(d1, z)] = rho[pos[x], pos[y]]
+    return out
+
+
+def check_index_layer(ctx, rho, dim, tag, replay):
+    """the matrices really tested by the criteria are the mathematical operations (exact: they are permutations / sums of entries)"""
+    import numqi
+    E = numqi.entangle
+    from numqi.entangle.ppt import _is_generalized_ppt_dim_list
+    ok = True
+    with capture() as rec:
+        E.is_ppt(rho, dim)
+    got = [m for m, _ in rec['psd']]
+    for i in range(len(dim)):
+        if i >= len(got) or not np.array_equal(got[i], oracle_pt(rho, dim, i)):
+            ctx.fail('is_ppt:index', f'is_ppt tests a matrix that is not the partial transpose on party {i} for dim={dim} ({tag})', dict(replay, party=i)); ok = False
+            break
+    with capture() as rec:
+        E.check_reduction_witness(rho, dim)
+    got = [m for m, _ in rec['psd']]
+    for i in range(len(dim)):
+        if i >= len(got) or np.abs(got[i] - oracle_reduction(rho, dim, i)).max() > 1e-12:
+            ctx.fail('check_reduction_witness:index', f'check_reduction_witness tests a matrix that is not 1⊗rho_{i}⊗1-rho for dim={dim} ({tag})', dict(replay, party=i)); ok = False
+            break
+    with capture() as rec:
+        E.is_generalized_ppt(rho, dim, return_info=True)
+    dl = _is_generalized_ppt_dim_list(len(dim))
+    if len(rec['norm']) != len(dl):
+        ctx.fail('is_generalized_ppt:index', f'is_generalized_ppt evaluated {len(rec["norm"])} bipartitions, expected {len(dl)}', replay); ok = False
+    else:
+        for (d0, d1), m in zip(dl, rec['norm']):
+            if not np.array_equal(m, oracle_gppt(rho, dim, d0, d1)):
+                ctx.fail('is_generalized_ppt:index', f'is_generalized_ppt takes the nuclear norm of a matrix that is not the ({d0},{d1}) realignment for dim={dim} ({tag})', dict(replay, d0=list(d0), d1=list(d1))); ok = False
+                break
+    # the bipartition list covers every split exactly once (up to exchanging the two groups)
+    n = len(dim)
+    want = set()
+    for k in range(0, n + 1):
+        for s in itertools.combinations(range(2 * n), k):
+            c = tuple(sorted(set(range(2 * n)) - set(s)))
+            want.add(min((len(s), s), (len(c), c))[1] if len(s) != len(c) else min(s, c))
+    have = [tuple(d0) for d0, _ in dl]
+    if set(have) != want or len(have) != len(want) or any(tuple(sorted(set(range(2 * n)) - set(d0))) != tuple(d1) for d0, d1 in dl):
+        ctx.fail('is_generalized_ppt:bipartitions', f'_is_generalized_ppt_dim_list({n}) is not the set of all splits of the {2 * n} axes', dict(n=n)); ok = False
+    if len(dim) == 2 and dim[0] == dim[1]:
+        d = dim[0]
+        v = float(sum(rho[a * d + b, b * d + a] for a in range(d) for b in range(d)).real)
+        h = 1e-9 * max(1.0, abs(v))
+        if not (E.check_swap_witness(rho, eps=v - h) and not E.check_swap_witness(rho, eps=v + h)):
+            ctx.fail('check_swap_witness:index', f'check_swap_witness does not threshold Re sum_ab rho[(a,b),(b,a)] = {v} ({tag})', dict(replay, value=v)); ok = False
+    if len(dim) == 2:
+        with capture() as rec:
+            E.get_negativity(rho, dim)
+        if not np.array_equal(rec['eigvals'][0], oracle_pt(rho, dim, 1)):
+            ctx.fail('get_negativity:index', f'get_negativity diagonalises a matrix that is not the partial transpose ({tag})', replay); ok = False
+    if ok:
+        ctx.probe_ok(('index', tag))
+    return ok
+
+
+def check_state(ctx, rho, dim, tag, replay, meas):
+    """every criterion on one separable state; `meas` collects the measured rounding errors"""
+    import numqi
+    E = numqi.entangle
+    good = True
+    def bad(key, what):
+        nonlocal good
+        good = False
+        ctx.fail(key, what + f' [{tag}]', replay)
+    r = guarded(lambda: E.is_ppt(rho, dim))
+    if r is not True:
+        bad('is_ppt:separable-rejected', f'is_ppt returned {r} for a separable state, dim={dim}')
+    r = guarded(lambda: E.is_generalized_ppt(rho, dim))
+    if r is not True:
+        info = guarded(lambda: max(x[2] for x in E.is_generalized_ppt(rho, dim, return_info=True)[1]))
+        bad('is_generalized_ppt:separable-rejected', f'is_generalized_ppt returned {r} for a separable state (largest nuclear norm {info}), dim={dim}')
+    r = guarded(lambda: E.check_reduction_witness(rho, dim))
+    if r is not True:
+        bad('check_reduction_witness:separable-rejected', f'check_reduction_witness returned {r} for a separable state, dim={dim}')
+    if len(dim) == 2 and dim[0] == dim[1]:
+        r = guarded(lambda: E.check_swap_witness(rho))
+        if r is not True:
+            bad('check_swap_witness:separable-rejected', f'check_swap_witness returned {r} for a separable state, dim={dim}')
+        d = dim[0]
+        sv = sum(rho[a * d + b, b * d + a] for a in range(d) for b in range(d)).real
+        meas['swap'] = max(meas.get('swap', 0.0), max(0.0, -sv))
+    if len(dim) == 2:
+        r = guarded(lambda: float(E.get_negativity(rho, dim)))
+        if isinstance(r, str) or not np.isfinite(r) or abs(r) > TOL_MEASURE:
+            bad('get_negativity:separable-nonzero', f'get_negativity returned {r} for a separable state, dim={dim}')
+        else:
+            meas['negativity'] = max(meas.get('negativity', 0.0), abs(r))
+    if tuple(dim) == (2, 2):
+        for name, f, tol in [('get_concurrence_2qubit', E.get_concurrence_2qubit, TOL_CONCURRENCE), ('get_eof_2qubit', E.get_eof_2qubit, TOL_MEASURE),
+                             ('get_gme_2qubit', E.get_gme_2qubit, TOL_MEASURE)]:
+            with np.errstate(all='ignore'):
+                r = guarded(lambda: float(f(rho)))
+            if isinstance(r, str) or not np.isfinite(r) or abs(r) > tol:
+                bad(f'{name}:separable-nonzero', f'{name} returned {r} for a separable two-qubit state')
+            else:
+                meas[name] = max(meas.get(name, 0.0), abs(r))
+    # measured rounding: smallest eigenvalue of every partial transpose / reduction matrix, largest nuclear norm
+    for i in range(len(dim)):
+        lm = np.linalg.eigvalsh(oracle_pt(rho, dim, i) if rho.shape[0] <= 12 else rho)[0]
+        meas['ppt'] = max(meas.get('ppt', 0.0), max(0.0, -lm))
+    with capture() as rec:
+        guarded(lambda: E.is_generalized_ppt(rho, dim, return_info=True))
+    for m in rec['norm']:
+        meas['gppt'] = max(meas.get('gppt', 0.0), max(0.0, np.linalg.svd(m, compute_uv=False).sum() - 1))
+    if good:
+        ctx.probe_ok(('state', tag))
+    return good
+
+
+def probe(ctx):
+    import numqi
+    rng = np.random.default_rng(ctx.np_seed + 17)
+    meas = {}
+    kinds = ['complex', 'real', 'basis', 'repeated', 'parallel']
+    nrep = 4 if ctx.quick() else 12
+    count = 0
+    for dim in PROBE_DIMS:
+        N = int(np.prod(dim))
+        terms = sorted(set([1, 2, 3, N // 2, N, N + 1, 2 * N]) - {0})
+        for kind in kinds:
+            for nterm in terms:
+                for _ in range(nrep if nterm > 1 else 1):
+                    rho, desc = make_separable(rng, dim, nterm, kind)
+                    tag = f'{kind}/{"x".join(map(str, dim))}/terms={nterm}'
+                    ctx.count('probe-' + kind)
+                    ctx.count('probe-dim-' + 'x'.join(map(str, dim)))
+                    check_state(ctx, rho, dim, tag, desc, meas)
+                    count += 1
+        # index layer on a generic Hermitian matrix (not a state: every entry distinct)
+        H = rng.normal(size=(N, N)) + 1j * rng.normal(size=(N, N)); H = H + H.conj().T
+        check_index_layer(ctx, H, dim, 'x'.join(map(str, dim)), rho_desc(H, dim, 'random-hermitian'))
+    # pure products with tiny concurrence-type rounding: many two-qubit product mixtures (the NaN of D6 needs c in (0,1e-8))
+    for k in range(600 if ctx.quick() else 6000):
+        rho, desc = make_separable(rng, (2, 2), int(rng.integers(1, 9)), 'complex' if k % 3 else 'real')
+        ctx.count('probe-2qubit-extra')
+        check_state(ctx, rho, (2, 2), f'2qubit-extra/{k}', desc, meas)
+    for rho, dim, name in family_states():
+        ctx.count('probe-family')
+        check_state(ctx, np.asarray(rho, dtype=np.complex128), dim, name, rho_desc(rho, dim, name), meas)
+    # the documented closed boundary of is_generalized_ppt (`norm<=1+threshold` passes): computational-basis product states have
+    # nuclear norm exactly 1 in every realignment (a single entry 1), so they must pass even with threshold=0
+    for dim in PROBE_DIMS:
+        N = int(np.prod(dim))
+        for k in sorted(set([0, N - 1, int(rng.integers(0, N))])):
+            rho = np.zeros((N, N), dtype=np.complex128); rho[k, k] = 1
+            r = guarded(lambda: numqi.entangle.is_generalized_ppt(rho, dim, threshold=0))
+            ctx.count('probe-gppt-boundary')
+            if r is not True:
+                ctx.fail('is_generalized_ppt:boundary-rejected', f'is_generalized_ppt(threshold=0) returned {r} for the basis product state |{k}><{k}| (all nuclear norms exactly 1), dim={dim}',
+                         dict(rho_desc(rho, dim, 'basis-product'), threshold=0))
+            else:
+                ctx.probe_ok(('gppt-boundary', dim, k))
+    # symmetric / bosonic extension SDPs (slow solvers: budgeted)
+    sdp_budget = 25.0 if ctx.quick() else 400.0
+    plan = [((2, 2), 2, False, False), ((2, 2), 2, True, False), ((2, 2), 2, False, True), ((2, 2), 3, False, False), ((2, 2), 3, True, False)]
+    if not ctx.quick():
+        plan += [((2, 3), 2, False, False), ((2, 3), 2, True, False), ((3, 3), 2, False, False), ((3, 3), 2, True, True), ((2, 2), 3, False, True), ((3, 2), 2, False, False), ((3, 2), 3, True, False), ((2, 3), 3, True, False), ((2, 3), 3, False, False)]
+    t0 = ctx.elapsed()
+    ran = 0
+    import time as _time
+    tstart = _time.time()
+    for dim, kext, boson, ppt in plan:
+        for j in range(2 if ctx.quick() else 5):
+            if _time.time() - tstart > sdp_budget:
+                break
+            rho, desc = make_separable(rng, dim, int(rng.integers(1, 2 * dim[0] * dim[1] + 1)), ['complex', 'basis', 'repeated'][j % 3])
+            r = guarded(lambda: bool(numqi.entangle.is_ABk_symmetric_ext(rho, dim, kext, use_ppt=ppt, use_boson=boson)))
+            ctx.count('probe-symext')
+            ran += 1
+            if r is not True:
+                ctx.fail('is_ABk_symmetric_ext:separable-rejected', f'is_ABk_symmetric_ext(kext={kext}, use_boson={boson}, use_ppt={ppt}) returned {r} for a separable state, dim={dim}',
+                         dict(desc, kext=kext, use_boson=boson, use_ppt=ppt))
+            else:
+                ctx.probe_ok(('symext', dim, kext, boson, ppt, j))
+    ctx.extra['symext_sdp_runs'] = ran
+    ctx.extra['statements_not_proved'] = statements_not_proved(THEOREM_FILES)
+    ctx.extra['measured_rounding'] = {k: float(v) for k, v in sorted(meas.items())}
+    T = extract_thresholds()
+    slack = dict(ppt=float(-T['isPptEpsDefault']) if T['isPptEpsDefault'] is not None else None,
+                 gppt=float(T['gpptThresholdDefault']) if T['gpptThresholdDefault'] is not None else None,
+                 swap=float(-T['swapEpsDefault']) if T['swapEpsDefault'] is not None else None)
+    ctx.extra['slack_from_source'] = slack
+    ctx.note(f'measured rounding on {count} separable states: ' + ', '.join(f'{k}={v:.2e}' for k, v in sorted(meas.items())) + f'; slack {slack}')
+    ctx.assumptions.append('rounding inside Cholesky / SVD / eigvals / the SDP solver is not modelled; the theorems take |computed-exact|<=delta<slack as a hypothesis, delta is measured on every run (coverage.measured_rounding)')
+    ctx.assumptions.append('"nuclear norm of a separable realignment <= 1", "concurrence of a separable two-qubit state = 0" (Wootters) and the irrep-block reformulation of the extension SDP are not proved in Lean; they are probed')
+
+
+def statements_not_proved(files):
+    """target theorems kept as `def ….Statement : Prop` (full statement type-checked, not proved)"""
+    import re
+    out = []
+    for f in files:
+        src = common.strip_lean_comments(open(os.path.join(common.LEAN, f)).read())
+        out += re.findall(r'^def\s+(\S+\.Statement)\b', src, re.M)
+    return out
+
+
+def search(ctx, hints):
+    """a proof obligation or the correspondence broke and the probe found nothing: evaluate the index-layer statements with the
+    independent oracles on exactly the disagreeing inputs, and the verdict statements on separable states built around them"""
+    for d in hints[:100]:
+        t = d['op'].split(' ')
+        if len(t) < 4 or not _wellformed(d['op']):
+            continue
+        if t[1] == 'gpptlist':
+            check_index_layer(ctx, np.eye(4, dtype=np.complex128), (2, 2), 'hint-gpptlist', dict(op=d['op']))
+            continue
+        dim = tuple(int(x) for x in t[2].split(';'))
+        N = int(np.prod(dim))
+        rho = parse_ents(t[-1], N)
+        H = rho + rho.conj().T
+        check_index_layer(ctx, H, dim, 'hint', dict(op=d['op'], note='rho + rho^H of the disagreeing op'))
+        if ctx.failures:
+            return
+    # verdict layer: a dense sweep of separable states (more samples than the probe)
+    rng = np.random.default_rng(ctx.np_seed + 99)
+    meas = {}
+    for k in range(400):
+        dim = PROBE_DIMS[k % len(PROBE_DIMS)]
+        rho, desc = make_separable(rng, dim, int(rng.integers(1, 2 * int(np.prod(dim)) + 1)), ['complex', 'real', 'basis', 'repeated', 'parallel'][k % 5])
+        check_state(ctx, rho, dim, f'search/{k}', desc, meas)
+        if ctx.failures:
+            return
+
+
+def replay(ctx, payload):
+    """bin/check C05 --replay file: rebuild the recorded state and run every criterion on it"""
+    rp = payload.get('replay', {})
+    meas = {}
+    if 'dim' in rp:
+        rho, dim = rebuild(rp)
+        if payload.get('key', '').endswith(':index'):
+            check_index_layer(ctx, rho, dim, 'replay', rp)
+        elif 'kext' in rp:
+            import numqi
+            r = guarded(lambda: bool(numqi.entangle.is_ABk_symmetric_ext(rho, dim, rp['kext'], use_ppt=rp['use_ppt'], use_boson=rp['use_boson'])))
+            if r is not True:
+                ctx.fail(payload.get('key'), f'is_ABk_symmetric_ext returned {r}', rp)
+        elif 'threshold' in rp:
+            import numqi
+            r = guarded(lambda: numqi.entangle.is_generalized_ppt(rho, dim, threshold=rp['threshold']))
+            if r is not True:
+                ctx.fail(payload.get('key'), f'is_generalized_ppt(threshold={rp["threshold"]}) returned {r}', rp)
+        else:
+            check_state(ctx, rho, dim, 'replay', rp, meas)
+    elif 'op' in rp:
+        search(ctx, [dict(op=rp['op'])])
+    hit = [f for f in ctx.failures if f['key'] == payload.get('key')] or ctx.failures
+    if hit:
+        print(f"replay: {hit[0]['key']} still fails: {hit[0]['what']}")
+        print(f'VIOLATION property={ctx.pid} replay=(replayed)')
+        return 1
+    print(f"replay: {payload.get('key')} no longer fails")
+    return 0
